@@ -61,6 +61,21 @@ CLAIMS = {
         'store-history std::atomic with the same reads-from choices (value correspondence after every operation) and happens-before stamps on buffer cells.',
    note=NOTE_COMMON + 'the memory-model fragment (two single-writer atomics, views monotone) and the second implementation of it in harness/drv_queue.cpp; plain accesses to dataEnd are covered by theorem + value correspondence, not observed.',
    design='4/C01 + Appendix A', technique='Coq invariant proof over an executable release/acquire machine with ghost laps; refinement to a FIFO spec; differential correspondence on the real headers'),
+ 'C11': dict(
+   text='Theorems C11_session_framing and C11_pieces_are_whole_entries (Coq, closed): for every history of session operations - incl. channel replacement, writer actions inside consume and every reads-from choice - every single out.write of consume / reconsumeMetadata is a whole number of entries; the channel part is a list of batches, each a writer description with that channel\'s id and name and batchSize = byte length of the one or two pieces that follow; bytes reported = bytes written. Built on C01 (pieces are runs of whole commits). Tied by write-by-write differential runs of the real Session/SessionWriter headers and by the framing oracle on the implementation.',
+   note=NOTE_COMMON + 'the stand-ins of harness/drv_session.cpp (atomic, mutex, shared_ptr with libstdc++ orders, fence); the session model keeps one source id per statement site; per-channel delivery is C01.', design='4/C11', technique='Coq invariant proof over the session model layered on the C01 queue refinement; differential correspondence with in-consume interleaving hooks'),
+ 'C02': dict(
+   text='Theorems C02_channels_refine_fifo (every channel of every reachable session state satisfies the C01 invariant, so every poll delivers exactly-once/in-order per channel), C02_closed_channel_drained (with the acquire fence after the closed test, the poll of a channel found closed delivers everything ever committed to it: removal loses nothing) and C02_removal_without_fence_refuted (the same model without the fence loses an accepted event - the D7 finding, fixed) - Coq, closed. Per-writer order across replaced channels and delivery by the next quiescent consume are checked on the implementation by the exactly-once oracle (not a theorem: stated as partial).',
+   note=NOTE_COMMON + 'the stand-ins of harness/drv_session.cpp (atomic, mutex, shared_ptr with libstdc++ orders, fence); the session model keeps one source id per statement site; per-channel delivery is C01.', design='4/C02', technique='Coq proof (queue refinement lifted to sessions, drained-before-removal theorem, refutation witness by vm_compute) + differential correspondence incl. the stale-read schedule'),
+ 'C03': dict(
+   text='Theorems C03_metadata_first (every consume writes pending clock syncs and all unconsumed sources before polling any channel; nothing inside a consume can register a source), C03_source_ids_distinct, C03_sources_once_per_output (Coq, closed), instantiated with the lock_guard / write-order / store-after-registration facts read off Session.hpp and the macro header. The interleavings considered are those the mutex permits: lock-free writer actions anywhere inside consume. Two threads racing on one statement site are not in the model (one id per site) - observed only.',
+   note=NOTE_COMMON + 'the stand-ins of harness/drv_session.cpp (atomic, mutex, shared_ptr with libstdc++ orders, fence); the session model keeps one source id per statement site; per-channel delivery is C01.', design='4/C03', technique='Coq proof over the session model with mutex-atomic operations and in-consume plans; source-derived lock facts; differential correspondence'),
+ 'C13': dict(
+   text='Theorems C13_rotation_metadata_complete and C13_consume_metadata_first (Coq, closed): an invariant over every history tracks what the CURRENT output holds; after reconsumeMetadata and after every consume the output holds exactly the consumed prefix of the sources (all of them after a consume) and every clock sync set so far, before any event of that consume - for rotations twice in a row, before any consume, and with unconsumed events or sources pending. Tied by differential runs with rotations and an oracle that parses each output on its own.',
+   note=NOTE_COMMON + 'the stand-ins of harness/drv_session.cpp (atomic, mutex, shared_ptr with libstdc++ orders, fence); the session model keeps one source id per statement site; per-channel delivery is C01.', design='4/C13', technique='Coq invariant proof with a ghost tracker of the current output; differential correspondence'),
+ 'C19': dict(
+   text='Theorems C19_disabled_statement_is_noop, C19_enabled_statement_one_event, C19_change_takes_effect (Coq, closed) on the statement model, instantiated with facts read off the macro headers: all 24 named macros expand to BINLOG_CREATE_SOURCE_AND_EVENT_IF whose comparison encloses source creation, argument evaluation and the event; the minimum is an atomic stored with release / loaded with acquire. Tied by the exhaustive product 8 sites x 9 thresholds x {first, repeated} on the real macros with evaluation counters, plus random histories.',
+   note=NOTE_COMMON + 'the stand-ins of harness/drv_session.cpp (atomic, mutex, shared_ptr with libstdc++ orders, fence); the session model keeps one source id per statement site; per-channel delivery is C01.', design='4/C19', technique='Coq proof on the log-statement model + source-derived macro structure; exhaustive differential product'),
 }
 REASON_NOT_BUILT = 'not built yet in this round: no theorem/correspondence for it is registered; not claimed at a lower level by another technique'
 m = {'version': 1, 'setup_cmd': './setup.sh',
